@@ -3,3 +3,4 @@ import Tibc.Expect.Packet
 #print axioms Tibc.C13.port_not_bound
 #print axioms Tibc.C13.ack_port_not_bound
 #print axioms Tibc.C13.relay_not_bound
+#print axioms Tibc.C13.ack_relay_not_bound
